@@ -170,7 +170,7 @@ def run(ctx):
     lib.gen_consts(ctx)
     consts = U.gen_json_consts(ctx)
     bad_cfg = {k: consts.get(k) for k, v in U.EXPECTED_CFG.items() if consts.get(k) != v}
-    if not ctx.check_theorems():
+    if not U.check_theorems_and_model(ctx):
         ctx.broken_obligation('Properties_C05.vo', getattr(ctx, 'broken', {}))
     if bad_cfg:
         ctx.broken_obligation('scanner-configuration', 'json_parser configuration differs from the one Json/Scanner.v transcribes: %r' % bad_cfg)
@@ -233,8 +233,11 @@ def run(ctx):
             prim.append(('b64d', 'b64d %d %d %s' % (url, dst, U.hx(t)), (url, dst, t)))
         for tail in (b'"', b'"x', b'', b'\\n"', b'" ,'):
             prim.append(('parse_b64', 'parse_b64 %d %d 0 %s' % (url, rng.choice([0, 2]), U.hx(b'"' + t + tail)), (url, t, tail)))
+    ctx.log('codec primitives: %d requests' % len(prim))
     mres = ctx.run_model('json', [l for _, l, _ in prim])
+    ctx.log('codec primitives: model done')
     ires = U.run_resilient(H, [l for _, l, _ in prim])
+    ctx.log('codec primitives: implementation done')
     for (klass, line, x), a, b in zip(prim, mres, ires):
         ctx.count(line, klass='codec:' + klass)
         replay = {'harness': 'json_rt', 'harness_line': line, 'model': a, 'impl': b}
@@ -313,7 +316,7 @@ def run(ctx):
         st.omit_struct_fields = False
         return v, U.render_root(root, v, st)
 
-    allpf = list(range(16))
+    allpf = [x for x in range(16) if (x & 12) != 12]      # skip_default together with force_default is contradictory
     ndoc = 400 if T else 90
     for k in range(ndoc):
         root = rng.choice(['Root'] * 6 + ['Leaf', 'Other', 'Sub', 'Rec', 'Pt', 'Fix'])
@@ -330,14 +333,19 @@ def run(ctx):
             cases.append(('floats', 'Root', None, b'{"f64":%s,"f32":%s}' % (repr(dv).encode(), repr(struct_f32(fv)).encode()), 0, 0, True))
     lines = ['rt %s %d %d 2 %s' % (root, pf, indent, U.hx(text)) for _, root, _, text, pf, indent, _ in cases]
     ctx.log('round trips: %d requests' % len(lines))
+    open(os.path.join(ctx.bdir, 'rt_lines.txt'), 'w').write('\n'.join(lines) + '\n')
     rep = U.run_resilient(H, lines)
     stat = {'rt': 0, 'src_rejected': 0, 'strict_checked': 0}
     ub_seen = {}
     for (klass, root, v, text, pf, indent, utf8), line, r in zip(cases, lines, rep):
         ctx.count(line, klass='rt:' + klass)
         replay = {'harness': 'json_rt', 'harness_line': line, 'root': root, 'printer_flags': pf, 'indent': indent, 'source_json': text[:2000].decode('latin1'), 'reply': r[:1500]}
-        if r.startswith(('CRASH', 'HANG')):
-            ctx.violation('rt-crash', 'round trip request crashed or hung: ' + r[:300], replay); continue
+        if r.startswith('HANG'):
+            b64 = re.search(rb'b64u?"?\s*:', text) is not None
+            ctx.violation('printer-hang:base64' if b64 else 'rt-hang', 'print/parse round trip did not return within 20 s (printer flags %d, indent %d)%s' % (
+                pf, indent, ': base64 field with a nearly full output buffer, see fixes/C11-base64-no-progress.patch' if b64 else ''), replay); continue
+        if r.startswith('CRASH'):
+            ctx.violation('rt-crash', 'round trip request crashed: ' + r[:300], replay); continue
         r, ub = U.split_ub(r)
         if ub: ub_seen.setdefault(ub, line[:160])
         asan = None
@@ -361,6 +369,8 @@ def run(ctx):
             ctx.violation('reparse-fails', 'printed text is rejected by the generated parser with error %d (printer flags %d, indent %d)' % (p1, pf, indent), replay); continue
         if v1 != 0:
             ctx.violation('reparse-unverifiable', 'reparsed buffer fails verification with %d' % v1, replay); continue
+        if deq != 1 and (pf & PF_SKIP_DEFAULT) and v is not None and negzero_default(root, v):
+            ctx.violation('skip-default-negative-zero', 'skip_default drops a float field holding -0.0 because it compares equal to the default 0.0: the reparsed buffer reads +0.0 (not bit exact)', replay); continue
         if deq != 1:
             ctx.violation('content-differs', 'accessor-level dump of the reparsed buffer differs from the original (printer flags %d, indent %d): %s' % (pf, indent, ' '.join(f[9:])[:300]), replay); continue
         if teq != 1:
@@ -391,6 +401,24 @@ def run(ctx):
              'alphabets and padding modes, decoder on printer output / python encodings / damaged text with destination limits; round trips: value trees for 7 root types x 16 printer '
              'flag sets x indents (0..8, 17, 255) with parser force_add; sampled boundary floats',
         explanation='theorems of Properties_C05 re-checked; extracted codec models compared with /repo; python json/base64 as independent judges; print->parse->dump/reprint equality on generated code')
+
+
+def negzero_default(root, v):
+    """does the value tree hold -0.0 in a float field whose default is 0.0 (anywhere)?"""
+    import math
+    def walk(t, x):
+        if t in U.TABLES and isinstance(x, dict):
+            for f, ft, d in U.TABLES[t]:
+                if f not in x: continue
+                if ft in ('float', 'double') and d == 0.0 and x[f] == 0.0 and math.copysign(1.0, x[f]) < 0: return True
+                if isinstance(ft, tuple):
+                    if ft[0] == 'union' and walk(dict(U.UNIONS[ft[1]])[x[f][0]], x[f][1]): return True
+                    if ft[0] == 'uvec' and any(walk(dict(U.UNIONS[ft[1]])[m], y) for m, y in x[f]): return True
+                    if ft[0] == 'vec' and any(walk(ft[1], y) for y in x[f]): return True
+                    if ft[0] in ('nested', 'nested64') and walk(ft[1], x[f]): return True
+                elif walk(ft, x[f]): return True
+        return False
+    return walk(root, v)
 
 
 def U_valid_utf8(bs):
